@@ -12,15 +12,17 @@ A0(e) == AbsC(e.rust, e.vecu8)
 Cfg(e) == [prefix |-> e.prefix, mapping |-> e.mapping, aliases |-> e.aliases, renames |-> e.renames, prims |-> TRUE]
 \* e.noptr: the run was configured with Go's no_pointer_slice = true (TypeExpr!SliceOpt)
 FL(e, a) == ForLangO(e.lang, e.noptr, a)
+\* ... for the observed type (TypeExpr!ForLangObs)
+FLO(e, a) == ForLangObs(e.lang, e.noptr, e.vecu8, a)
 \* members: compare what is under the optional marker. A double option collapses to one option outside
 \* TypeScript, whether the backend prints it as marker + nullable type (T??) or as a single marker.
 MemberOk(e) == LET A == FL(e, A0(e))
                    U == Unopt(A)
-                   O == FL(e, e.ty)
+                   O == FLO(e, e.ty)
                    OU == IF e.lang # "typescript" /\ A.k = "opt" /\ O.k = "opt" THEN O.e ELSE O
                IN Conf(e.lang, Cfg(e), U, OU)
 TypeOk(e) == IF e.pos \in {"alias", "const"}
-             THEN Conf(e.lang, Cfg(e), FL(e, A0(e)), FL(e, e.ty))
+             THEN Conf(e.lang, Cfg(e), FL(e, A0(e)), FLO(e, e.ty))
              ELSE MemberOk(e)
 \* where the target type states a LENGTH (a TypeScript tuple [T, T, T]), it is the length of an array of the Rust expression
 \* (e.fixed_lens: the lengths the observed type states; e.rust_lens: the lengths of the arrays of the Rust type)
